@@ -118,6 +118,7 @@ func (vm *VM) Abort() {
 	// set the flag of this VM before the flags of its child VMs: a child VM
 	// that resets its own flag when it starts to run checks this one afterwards.
 	vm.abort.Store(1)
+	verifSync("abort.mid", vm)
 	vm.pool.abort()
 }
 
